@@ -459,7 +459,9 @@ def add_rings(rng, ast, n_rings, orders=(0, 1, 2, 3, 4), p_bond=0.3, p_pct=0.3, 
             continue
         ei, ej = flat[i][0], flat[j][0]
         # a multiplied node between/adjacent makes adjacency ambiguous only for the multiplied node itself (excluded)
-        used = {m for (a, b, m) in open_iv if not (b < i or a > j)}
+        # a marker is free again on the very node that closes it: '[#C]11' closes ring 1 and opens a new ring 1
+        used = {m for (a, b, m) in open_iv if not (b <= i or a >= j)}
+        touching = [m for (a, b, m) in open_iv if (b == i or a == j) and m not in used]
         pct = rng.random() < p_pct
         pool = [m for m in (range(0, 100) if pct else range(0, 10)) if m not in used]
         if pct and rng.random() < 0.7:
@@ -467,10 +469,20 @@ def add_rings(rng, ast, n_rings, orders=(0, 1, 2, 3, 4), p_bond=0.3, p_pct=0.3, 
         if not pool:
             continue
         m = rng.choice(pool)
+        if touching and rng.random() < 0.5:
+            m = rng.choice(touching)
+            pct = pct or m >= 10
         o = rng.choice(orders) if rng.random() < p_bond else None
         # keep %nn markers last on a node so that no bare digit follows them
-        ei['rings'].append((o, m, pct))
-        ej['rings'].append((None, m, pct))
+        # markers are read left to right: on a node that carries the same marker twice the closing one comes first.
+        # The same spelling (digit / %nn) as the entry already there keeps that order through the stable sort below.
+        same_i = [r for r in ei['rings'] if r[1] == m]
+        same_j = [k for k, r in enumerate(ej['rings']) if r[1] == m]
+        ei['rings'].append((o, m, same_i[0][2] if same_i else pct))
+        if same_j:
+            ej['rings'].insert(same_j[0], (None, m, ej['rings'][same_j[0]][2]))
+        else:
+            ej['rings'].append((None, m, pct))
         for e in (ei, ej):
             e['rings'].sort(key=lambda r: (r[2] or r[1] >= 10))
         adjacent.add((i, j))
